@@ -218,8 +218,14 @@ def c04(case, o, res, prefix="C04"):
         with np.errstate(all="ignore"):
             vals.append(objective_of(case, x, r))
     fin = [v for v in vals if math.isfinite(v)]
-    if not fin or len(fin) != len(vals):
+    if not fin or (len(fin) != len(vals) and not case.get("nan_half")):
         return None
+    if len(fin) != len(vals):
+        # objective undefined (NaN) on part of the space, finite at x0: the statement's comparison is with every value there is
+        res.classes.append("nan-region-visited")
+        if not math.isfinite(vals[0]):
+            return None
+        vals = [v if math.isfinite(v) else float("inf") for v in vals]
     best = min(fin)
     obj = float(s.obj)
     if not (obj <= best * (1 + 4 * EPS) + 1e-300):
@@ -319,11 +325,11 @@ def iteration_hook(case, check_c03=True, check_c04=True):
                 v = objective_of(case, x, r)
             if math.isfinite(v):
                 state["best"] = min(state["best"], v)
-            else:
+            elif not case.get("nan_half"):
                 state["nonfinite"] = True
         if check_c04 and det and not state["nonfinite"] and state["ncalls"] > 0:
             cur = float(mdl.objopt())
-            if mdl.objsave is not None and mdl.objsave < cur:
+            if mdl.objsave is not None and (mdl.objsave < cur or math.isnan(cur)):      # a NaN incumbent ranks below any saved value
                 cur = float(mdl.objsave)
             if not (cur <= state["best"] * (1 + 4 * EPS) + 1e-300):
                 fail(o, "C04.iter_best", "iteration %d: best value held by the model (incumbent/saved) is %r but an evaluated point had %r"
